@@ -3,6 +3,7 @@ module verifharness
 go 1.17
 
 require (
+	github.com/golang/snappy v0.0.4
 	github.com/nsqio/go-nsq v1.1.0
 	github.com/nsqio/nsq v0.0.0
 )
@@ -13,7 +14,6 @@ require (
 	github.com/bitly/timer_metrics v1.0.0 // indirect
 	github.com/blang/semver v3.5.1+incompatible // indirect
 	github.com/bmizerany/perks v0.0.0-20141205001514-d9a9656a3a4b // indirect
-	github.com/golang/snappy v0.0.4 // indirect
 	github.com/judwhite/go-svc v1.2.1 // indirect
 	github.com/julienschmidt/httprouter v1.3.0 // indirect
 	github.com/mreiferson/go-options v1.0.0 // indirect
